@@ -727,7 +727,10 @@ pub(crate) async fn invoke_shell_function(
     // so the parameters are passed through by shared reference rather than cloned. This prevents
     // direct mutation of the caller's `ExecutionParameters` open-file table, though the function
     // may still change the shell's persistent open files via builtins (e.g. `exec`).
+    // The callee is not inside any of its caller's loops.
+    let outer_loop_depth = context.shell.set_loop_depth(0);
     let result = body.execute(context.shell, &context.params).await;
+    context.shell.set_loop_depth(outer_loop_depth);
 
     // We've come back out, reflect it.
     context.shell.leave_function()?;
